@@ -21,6 +21,7 @@ Hypothesis Sft : Sfield S.
 Hypothesis Seqb : seqb_spec S.
 Hypothesis Ord : ordered S.
 Hypothesis Habs2 : forall v : S, sabs v * sabs v = v * v.
+Hypothesis Hadj : forall v : S, sadj v = v.   (* real value types: math::adjoint = id (SPAI-0 accumulates adjoint(a_ii)) *)
 Let Srt : Sring S := F_R Sft.
 Add Ring SRingSm3 : Srt.
 Local Notation ip := (@ip S).
@@ -46,7 +47,7 @@ Proof.
   intros (WA & SA & _ & Hk). destruct k as [w| |]; cbn [mk_relax_std fst snd].
   - destruct Hk as (HW & Hfd & H0 & H1).
     split; apply (jacobi_w_dec Sft Seqb Ord A w (vzero (nrows A)) WA HW Hfd H0 H1).
-  - destruct Hk as (HW & Hnd). split; apply (spai0_w_dec Sft Seqb Ord Habs2 A WA HW Hnd).
+  - destruct Hk as (HW & Hnd). split; apply (spai0_w_dec Sft Seqb Ord Habs2 Hadj A WA HW Hnd).
   - destruct Hk as (Hgs & Hpos).
     split; [apply (gs_it_dec Sft Seqb Ord A WA SA Hgs Hpos true)|apply (gs_it_dec Sft Seqb Ord A WA SA Hgs Hpos false)].
 Qed.
@@ -58,7 +59,7 @@ Proof.
   - destruct Hk as (HW & Hfd & H0 & H1). destruct Hs as [Hs|Hs].
     + apply (jacobi_w_sdec Sft Seqb Ord A w (vzero (nrows A)) WA HW Hfd H0 Hs).
     + apply (jacobi_w_sdec_idd Sft Seqb Ord A w (vzero (nrows A)) WA HW Hfd H0 H1 Hs).
-  - destruct Hk as (HW & Hnd). apply (spai0_w_sdec Sft Seqb Ord Habs2 A WA HW Hnd).
+  - destruct Hk as (HW & Hnd). apply (spai0_w_sdec Sft Seqb Ord Habs2 Hadj A WA HW Hnd).
   - destruct Hk as (Hgs & Hpos). apply (gs_it_sdec Sft Seqb Ord A WA SA Hgs Hpos true).
 Qed.
 
